@@ -99,13 +99,14 @@ def _kw_class(keyword, fmt, position):
 
 def check(case):
     tag, meta, case_tg, minlen = case
-    tg = build(case_tg)
+    tg = build(case_tg)        # ONE live object is saved 8 times ...
+    pristine = build(case_tg)  # ... and judged against a copy that is never handed to save()
     d = scratch_dir()
     fn = os.path.join(d, "c01.TextGrid")
     fn2 = os.path.join(d, "c01b.TextGrid")
     viols = []
     n = 0
-    nempty = any(e[-1] == "" for t in tg.tiers for e in t.entries)
+    nempty = any(e[-1] == "" for t in pristine.tiers for e in t.entries)
     oc = []
     for fmt in FMTS:
         is_kw = tag == "K" and fmt in ("long_textgrid", "short_textgrid")
@@ -126,7 +127,7 @@ def check(case):
                     viols.append(Viol("open-raised:" + type(r).__name__, f"{cfg}: reopening {case_tg} raised {r!r}", sig))
                     oc.append("X")
                     continue
-                lo, hi, exp = model(tg, fmt, blanks, incl)
+                lo, hi, exp = model(pristine, fmt, blanks, incl)
                 msg = compare(r, lo, hi, exp)
                 if msg:
                     sig = dict(_kw_class(meta[0], fmt, meta[1]), kind="mismatch") if is_kw else None
@@ -134,7 +135,7 @@ def check(case):
                     oc.append("!")
                     continue
                 oc.append("=")
-                widened = any((t.minTimestamp, t.maxTimestamp) != (e[2], e[3]) for t, e in zip(tg.tiers, exp)) \
+                widened = any((t.minTimestamp, t.maxTimestamp) != (e[2], e[3]) for t, e in zip(pristine.tiers, exp)) \
                     if fmt != "json" else any((e[2], e[3]) != (lo, hi) for e in exp)
                 if (incl or not nempty) and not widened:
                     n += 1
